@@ -99,8 +99,8 @@ def n_class(n):
 
 def canon_of(case, n, symptom, quantity):
     return dict(op='coefficient', wave=case['wavetype'], symptom=symptom, quantity=quantity, order=n_class(n),
-                negative_order=n < 0, negative_amplitude=case['amplitude'] < 0,
-                zero_phase=case['phase'] == 0, zero_offset=case['offset'] == 0)
+                negative_order=n < 0, negative_amplitude=case['amplitude'] < 0, zero_amplitude=case['amplitude'] == 0,
+                zero_phase=case['phase'] == 0, zero_offset=case['offset'] == 0, revisit=bool(case.get('prelude')))
 
 def pretty(case):
     return f"{case['cls']}(period={case['period']!r}, amplitude={case['amplitude']!r}, phase={case['phase']!r}, offset={case['offset']!r})"
@@ -290,6 +290,23 @@ def oracle_coefficients(ctx, out, case, ns):
             out.spec_fail(canon_of(case, n, 'neg_index', 'amplitude_phase'),
                           f'amplitude/phase({-n}) ≠ (amplitude, −phase)({n})', pretty(case),
                           impl=dict(amplitude=(amp, amp_m), phase=(ph, ph_m)), case=case, n=n)
+    # reconstruction in the mean square: ‖f − (a₀ + Σ_{n≤M} aₙ cos(nω₀t + φₙ))‖² ≤ tail bound
+    M = 48
+    try:
+        S = np.full(t.shape, float(h.amplitude(0)))
+        for k in range(1, M + 1):
+            S = S + float(h.amplitude(k)) * np.cos(2 * np.pi * k * t / T + float(h.phase(k)))
+        err = float(np.sum(wv * (y - S) ** 2) / T)
+        out.evaluations += 1
+        if not (err <= (A * A) / M + 1e-6 * (scale ** 2) + 1e-300):
+            out.spec_fail(dict(op='coefficient', wave=case['wavetype'], symptom='reconstruction',
+                               negative_amplitude=case['amplitude'] < 0, zero_amplitude=case['amplitude'] == 0,
+                               zero_offset=case['offset'] == 0, revisit=bool(case.get('prelude'))),
+                          'the amplitude/phase reconstruction does not converge to the time function in the mean square',
+                          pretty(case), impl=dict(mean_square_error=err, terms=M), spec=dict(bound=(A * A) / M), case=case, n=0)
+    except Exception as e:
+        out.spec_fail(dict(op='coefficient', wave=case['wavetype'], symptom='raises', exc=etag(e)),
+                      f'reconstruction raises {etag(e)}', pretty(case), impl=dict(exception=repr(e)), case=case, n=0)
     # Bessel / Parseval: Σ_{n≤N} |c_n|² ≤ mean square ≤ Σ_{n≤N} + tail bound
     N = 400
     try:
@@ -299,7 +316,8 @@ def oracle_coefficients(ctx, out, case, ns):
         out.evaluations += 1
         if partial > ms + 1e-6 * (scale ** 2) or partial < ms - (A * A) / N - 1e-6 * (scale ** 2):
             out.spec_fail(dict(op='coefficient', wave=case['wavetype'], symptom='parseval',
-                               negative_amplitude=case['amplitude'] < 0, zero_offset=case['offset'] == 0),
+                               negative_amplitude=case['amplitude'] < 0, zero_amplitude=case['amplitude'] == 0,
+                               zero_offset=case['offset'] == 0, revisit=bool(case.get('prelude'))),
                           'Parseval/Bessel: Σ|amplitude|² does not match the mean square of the time function',
                           pretty(case), impl=dict(partial_sum=partial), spec=dict(mean_square=ms), case=case, n=0)
     except Exception as e:
@@ -392,6 +410,28 @@ CORPUS = [
     dict(wavetype='const', cls='ConstantFunction', period=1.0, amplitude=-4.0, phase=0.3, offset=2.0),
 ]
 
+GRID_AMPLITUDES = [0.0, 1e-9, -1e-9, 1.0, -1.0]
+GRID_OFFSETS = [0.0, 1.0, -1.0, 1e6]
+GRID_PERIODS = [1.0, 1e-6, 1e6, 0.02]
+
+def grid_cases(quick):
+    """boundary values, visited so that the same (type, amplitude, phase) comes back with another offset later in the
+    same process (state kept between calls — caches, mutated defaults — shows up as a stale coefficient object)"""
+    phases = [0.0, math.pi / 2, -math.pi / 2, math.pi, 2 * math.pi * 100 + math.pi / 2]
+    if not quick:
+        phases += [2 * math.pi, -3 * math.pi / 2, 2 * math.pi * 1000, 1.0]
+    seen = {}
+    for off in GRID_OFFSETS:
+        for wt in WAVETYPES:
+            for ia, A in enumerate(GRID_AMPLITUDES):
+                for ip, ph in enumerate(phases):
+                    T = GRID_PERIODS[(ia + ip) % len(GRID_PERIODS)]
+                    key = (wt, A, ph)
+                    case = dict(wavetype=wt, cls=CLS[wt], period=T, amplitude=A, phase=ph, offset=off,
+                                prelude=list(seen.get(key, [])))
+                    yield case
+                    seen.setdefault(key, []).append({k: v for k, v in case.items() if k != 'prelude'})
+
 def pick_ns(rng, k, nmax):
     base = [0, 1, -1, 2, -2, 3, -3, 4, 5, nmax, -nmax, nmax - 1, -(nmax - 1)]
     return sorted(set(base + [rng.randint(-nmax, nmax) for _ in range(k)]))
@@ -422,6 +462,17 @@ def run(ctx, out):
     for wt in WAVETYPES:
         for _ in range(per_wave):
             cases.append(random_case(rng, wt))
+    # boundary grid with revisits (implementation-side oracle only; evaluated first, in one fixed order)
+    n_grid = 0
+    for case in grid_cases(ctx.quick):
+        if ctx.time_left() < 40:
+            out.notes.append(f'grid stopped after {n_grid} cases (budget)'); break
+        oracle_coefficients(ctx, out, case, [0, 1, 2, 3, -1])
+        out.count('grid:' + case['wavetype'])
+        out.count('grid:revisit' if case['prelude'] else 'grid:first')
+        out.nontrivial(('grid', case['wavetype'], case['amplitude'], case['offset'] == 0, bool(case['prelude'])))
+        n_grid += 1
+    out.extra['grid_cases'] = n_grid
     for i, case in enumerate(cases):
         if ctx.time_left() < 15:
             out.notes.append(f'stopped after {i} of {len(cases)} cases (budget)'); break
@@ -444,6 +495,11 @@ def replay(ctx, out, rp):
     case = rp.get('case')
     if case is None:
         raise SystemExit('replay file carries no waveform case')
+    for earlier in case.get('prelude') or []:
+        try:
+            make_impl(earlier)          # bring the process into the state the failing call was made in
+        except Exception:
+            pass
     n = rp.get('n', 0)
     ns = sorted({0, 1, n, -n})
     check_case(ctx, out, case, ns, ns, [0.125 * case['period']])
